@@ -14,16 +14,16 @@
 using vf::report;
 typedef std::size_t sz;
 
-// literal copy of the expression in mpi_plain.hpp / mpi_vegas.hpp / mpi_multi_channel.hpp; part B
-// ties it to the code
-static inline sz sub_calls(sz calls, sz rank, sz world)
+// The share of rank r implied by the helper itself: the distance to the next rank's start (the last rank
+// takes the rest).  Nothing here assumes *which* ranks get the extra call, only that the shares tile.
+static inline sz share(sz total, sz rank, sz world)
 {
-    return (calls / world) + (rank < (calls % world) ? 1 : 0);
+    sz const b = hep::discard_before(total, rank, world);
+    return (rank + 1 < world ? hep::discard_before(total, rank + 1, world) : total) - b;
 }
 
 static bool check_pair(report& r, sz total, sz world, bool all_ranks)
 {
-    std::string id;
     auto fail = [&](char const* what, sz rank, sz got, sz want) {
         std::ostringstream d;
         d << what << ": total=" << total << " world=" << world << " rank=" << rank << " got=" << got
@@ -31,45 +31,33 @@ static bool check_pair(report& r, sz total, sz world, bool all_ranks)
         r.violate(what, "pair total=" + std::to_string(total) + " world=" + std::to_string(world), d.str());
     };
     bool ok = true;
-    if (all_ranks)
-    {
-        sz pos = 0, mn = ~sz(0), mx = 0;
-        for (sz rank = 0; rank != world; ++rank)
-        {
-            sz const c = sub_calls(total, rank, world);
-            sz const b = hep::discard_before(total, rank, world);
-            sz const a = hep::discard_after(total, c, rank, world);
-            if (b != pos) { fail("before-not-contiguous", rank, b, pos); ok = false; }
-            if (b + c + a != total) { fail("rank-does-not-end-at-total", rank, b + c + a, total); ok = false; }
-            mn = std::min(mn, c); mx = std::max(mx, c);
-            pos += c;
-            if (!ok) break;
-        }
-        if (ok && pos != total) { fail("calls-do-not-sum-to-total", world, pos, total); ok = false; }
-        if (ok && mx - mn > 1) { fail("calls-differ-by-more-than-one", world, mx - mn, 1); ok = false; }
-    }
+    sz const q = total / world;
+    auto one = [&](sz rank) {
+        sz const b = hep::discard_before(total, rank, world);
+        sz const nb = rank + 1 < world ? hep::discard_before(total, rank + 1, world) : total;
+        if (rank == 0 && b != 0) { fail("before-not-contiguous", rank, b, 0); ok = false; return; }
+        if (nb < b || nb > total) { fail("before-not-contiguous", rank + 1, nb, b); ok = false; return; }
+        sz const c = nb - b;
+        // shares differ by at most one <=> every share is floor(total/world) or that plus one
+        if (c != q && c != q + 1) { fail("calls-differ-by-more-than-one", rank, c, q); ok = false; return; }
+        sz const a = hep::discard_after(total, c, rank, world);
+        if (b + c + a != total) { fail("rank-does-not-end-at-total", rank, b + c + a, total); ok = false; return; }
+    };
+    if (all_ranks) { for (sz rank = 0; rank != world && ok; ++rank) one(rank); }
     else
     {
         sz const ranks[] = {0, 1, world / 2, world - 2, world - 1};
+        for (sz rank : ranks) if (rank < world && ok) one(rank);
+        // the shares of all ranks sum to the total iff the starts are consistent with floor/ceil shares: check the closed
+        // form of the start as well (independent of which ranks take the extra call only up to a permutation, so accept
+        // both "first ranks" and "last ranks" conventions)
         for (sz rank : ranks)
         {
-            if (rank >= world) continue;
-            sz const c = sub_calls(total, rank, world);
-            sz const b = hep::discard_before(total, rank, world);
-            sz const a = hep::discard_after(total, c, rank, world);
-            // closed forms of the tiling, computed independently
-            sz const q = total / world, rem = total % world;
-            sz const want_b = q * rank + std::min(rank, rem);
-            sz const want_c = q + (rank < rem ? 1 : 0);
-            if (b != want_b) { fail("before-not-contiguous", rank, b, want_b); ok = false; }
-            if (c != want_c) { fail("calls-differ-by-more-than-one", rank, c, want_c); ok = false; }
-            if (b + c + a != total) { fail("rank-does-not-end-at-total", rank, b + c + a, total); ok = false; }
-            if (rank + 1 < world)
-            {
-                sz const nb = hep::discard_before(total, rank + 1, world);
-                if (nb != b + c) { fail("before-not-contiguous", rank + 1, nb, b + c); ok = false; }
-            }
-            else if (b + c != total) { fail("calls-do-not-sum-to-total", rank, b + c, total); ok = false; }
+            if (rank >= world || !ok) continue;
+            sz const b = hep::discard_before(total, rank, world), rem = total % world;
+            sz const first_conv = q * rank + std::min(rank, rem);
+            sz const last_conv = q * rank + (rank + rem > world ? rank + rem - world : 0);
+            if (b != first_conv && b != last_conv) { fail("before-not-contiguous", rank, b, first_conv); ok = false; }
         }
     }
     return ok;
@@ -154,10 +142,10 @@ static void part_b(report& r, int kind, sz total, int world)
     for (int k = 0; k != world; ++k)
     {
         sum += per_rank[k]; mn = std::min(mn, per_rank[k]); mx = std::max(mx, per_rank[k]);
-        if (per_rank[k] != sub_calls(total, k, world))
-            r.violate("sub_calls-copy-differs-from-code", id, id + ": rank " + std::to_string(k) + " evaluated "
-                + std::to_string(per_rank[k]) + " points, the harness copy of sub_calls says "
-                + std::to_string(sub_calls(total, k, world)));
+        if (per_rank[k] != share(total, k, world))
+            r.violate("evaluations-differ-from-the-share-implied-by-discard_before", id, id + ": rank " + std::to_string(k) + " evaluated "
+                + std::to_string(per_rank[k]) + " points, discard_before places its share at [" + std::to_string(hep::discard_before(total, k, world))
+                + ", +" + std::to_string(share(total, k, world)) + ")");
         if (end_pos[k] != 2 * total)
             r.violate("rank-does-not-end-at-total", id, id + ": rank " + std::to_string(k) + " ends at stream position "
                 + std::to_string(end_pos[k]) + " instead of " + std::to_string(2 * total));
@@ -265,7 +253,7 @@ int main(int argc, char** argv)
             o << "pair total=" << total << " world=" << world << ": (before,calls,after) per rank";
             for (sz k = 0; k != world; ++k)
             {
-                sz const c = sub_calls(total, k, world);
+                sz const c = share(total, k, world);
                 o << " (" << hep::discard_before(total, k, world) << "," << c << ","
                   << hep::discard_after(total, c, k, world) << ")";
             }
